@@ -117,10 +117,12 @@ def _observe(gtext, opts, inputs, dump=False):
     detail = {}
     kw = dict(tables=LALR if opts["tables"] else SLR, prefer_shifts=opts["ps"],
               prefer_shifts_over_empty=opts["pse"], lexical_disambiguation=opts["lexdis"])
-    os.environ["PARGLARE_VERIF_MAX_STATES"] = "400"
+    # LALR construction diverges on some grammars (KF-C05): the state budget hook makes that outcome
+    # deterministic (a wall-clock limit would not be)
     try:
-        with impl.time_limit(20), impl.quiet():
+        with impl.time_limit(60), impl.quiet():
             g = Grammar.from_string(gtext)
+            os.environ["PARGLARE_VERIF_MAX_STATES"] = "120"
             p = GLRParser(g, **kw)
     except BaseException as e:  # noqa
         obs["gerr"] = "%s: %s" % (impl.exc_kind(e), str(e)[:400])
@@ -172,13 +174,16 @@ def _observe(gtext, opts, inputs, dump=False):
     obs["maxla"] = max([len(f) for st in struct for f in st[2]] or [0])
     # ---- LR parser: conflict exceptions and their text
     try:
-        with impl.time_limit(20), impl.quiet():
+        with impl.time_limit(60), impl.quiet():
             g2 = Grammar.from_string(gtext)
+            os.environ["PARGLARE_VERIF_MAX_STATES"] = "120"
             lp = Parser(g2, **kw)
         obs["lr"] = "ok"
     except BaseException as e:  # noqa
         lp = None
         obs["lr"] = "%s: %s" % (impl.exc_kind(e), _sha(str(e)))
+    finally:
+        os.environ.pop("PARGLARE_VERIF_MAX_STATES", None)
     if dump:
         prods = []
         for pr in g.productions:
@@ -195,7 +200,7 @@ def _observe(gtext, opts, inputs, dump=False):
     for w in inputs:
         c = {"lr": None}
         try:
-            with impl.time_limit(10):
+            with impl.time_limit(30):
                 forest = p.parse(w)
             n = forest.solutions
             c["status"] = "forest"
@@ -205,7 +210,7 @@ def _observe(gtext, opts, inputs, dump=False):
                 c["nodes"] = _sha(impl.dump_forest(forest, gi))
             except impl.Cyclic:
                 c["nodes"] = "cyclic"
-            with impl.time_limit(10):
+            with impl.time_limit(30):
                 c["trees"] = _sha([forest[i].to_str() for i in range(min(n, TREE_CAP))]) \
                     if c["nodes"] != "cyclic" else "cyclic"
         except parglare.SyntaxError as e:
@@ -214,9 +219,14 @@ def _observe(gtext, opts, inputs, dump=False):
         except BaseException as e:  # noqa
             c["status"] = "exc:" + impl.exc_kind(e)
         if lp is not None:
+            # the LR driver loops forever on cyclic unit rules (A: A): wall-clock limit, and the rest of
+            # the job's LR parses are skipped after the first one that hits it
             try:
-                with impl.time_limit(10):
+                with impl.time_limit(2):
                     c["lr"] = _sha(repr(lp.parse(w)))
+            except impl.Timeout:
+                c["lr"] = "Timeout"
+                lp = None
             except BaseException as e:  # noqa
                 c["lr"] = "%s:%s" % (impl.exc_kind(e), _sha(str(e)))
         res.append(c)
@@ -287,7 +297,7 @@ def run_all_seeds(seeds, joblists, par):
 
 # ------------------------------------------------------------------ generators
 NAME_POOL = ["a", "b", "c", "d", "e", "x", "y", "z", "+", "-", "*", "/", "^", "%", "=", "<", ">", "!", "&", "|",
-             "==", "!=", "<=", ">=", "&&", "||", "->", "::", "..", "if", "then", "else", "while", "do", "end",
+             "==", "!=", "<=", ">=", "&&", "||", "->", "::", "~~", "if", "then", "else", "while", "do", "end",
              "let", "in", "fn", "ret", "Aa", "BB", "q0", "q1", "k9", "zz", "é", "λ", "ab", "ba", "abc", "cab"]
 
 MALFORMED = [
@@ -355,24 +365,31 @@ def gen_operator(rng, i):
 def gen_statements(rng, i):
     k = rng.randint(3, 8)
     kws = rng.sample(NAME_POOL, k + 3)
-    stm = []
-    opts_rules = []
+    stm, opts_rules, shapes = [], [], []
     for j in range(k):
         o = "O%d" % j
-        stm.append("%s %s %s" % (_q(kws[j]), o, rng.choice(["X", "X X", o, ""])))
-        opts_rules.append("%s: %s | EMPTY;" % (o, _q(kws[(j + 1) % k]) if rng.random() < 0.5 else _q(kws[k])))
+        rest = rng.choice(["X", "X X", o, ""])
+        otok = kws[(j + 1) % k] if rng.random() < 0.5 else kws[k]
+        stm.append(("%s %s %s" % (_q(kws[j]), o, rest)).strip())
+        opts_rules.append("%s: %s | EMPTY;" % (o, _q(otok)))
+        shapes.append((kws[j], otok, rest, o))
     text = "P: P St | EMPTY;\nSt: %s;\n%s\nX: %s | %s;" % (
-        " | ".join(s.strip() for s in stm), "\n".join(opts_rules), _q(kws[k + 1]), _q(kws[k + 2]))
+        " | ".join(stm), "\n".join(opts_rules), _q(kws[k + 1]), _q(kws[k + 2]))
     inputs = []
-    for _ in range(5):
+    for _ in range(6):
         toks = []
-        for _ in range(rng.randint(1, 3)):
-            j = rng.randrange(k)
-            toks.append(kws[j])
+        for _ in range(rng.randint(1, 4)):
+            kw, otok, rest, o = rng.choice(shapes)
+            toks.append(kw)
             if rng.random() < 0.5:
-                toks.append(kws[(j + 1) % k])
-            toks.append(kws[k + 1])
+                toks.append(otok)
+            for r in rest.split():
+                if r == "X":
+                    toks.append(rng.choice(kws[k + 1:k + 3]))
+                elif rng.random() < 0.5:
+                    toks.append(otok)
         inputs.append(" ".join(toks))
+    inputs.append(" ".join(rng.choice(kws) for _ in range(3)))
     return ("stm%d" % i, text, inputs)
 
 
@@ -458,15 +475,15 @@ def gen_jobs(ctx):
         cases.append(("classic", n, t, sorted(set(ins))))
     for n, t in MALFORMED:
         cases.append(("malformed", n, t, []))
-    n_small = 60 if quick else 700
+    n_small = 60 if quick else 300
     for i in range(n_small):
         r = gramgen.random_grammar(rng, max_nt=3, max_alts=3, max_rhs=3,
                                    p_empty=rng.choice([0.0, 0.15, 0.3]))
         if r is None:
             continue
         prods, text = r
-        ins = list(gramgen.all_strings(["a", "b"], 3))
-        for _ in range(4):
+        ins = list(gramgen.all_strings(["a", "b"], 2))
+        for _ in range(10):
             s = gramgen.random_sentence(rng, prods, max_depth=5, max_len=8)
             if s is not None and s not in ins:
                 ins.append(s)
@@ -476,7 +493,7 @@ def gen_jobs(ctx):
         if r is None:
             continue
         cases.append(("unary", "unary%d" % i, r[1], ["b" * k for k in range(0, 6)]))
-    n_wide = 50 if quick else 600
+    n_wide = 50 if quick else 250
     for i in range(n_wide):
         for gen, fam in ((gen_operator, "operators"), (gen_statements, "statements"),
                          (gen_wide_random, "wide"), (gen_lexical, "lexical")):
@@ -492,9 +509,17 @@ def gen_jobs(ctx):
 
 
 # ------------------------------------------------------------------ comparison
+def _timed_out(o):
+    return "Timeout" in str(o.get("gerr")) or "Timeout" in str(o.get("lr")) or \
+        any("Timeout" in str(c.get("status")) or "Timeout" in str(c.get("lr")) for c in o.get("inputs") or [])
+
+
 def diff_obs(a, b):
-    """names of the observables in which two observation records differ"""
+    """names of the observables in which two observation records differ (a record in which a
+    wall-clock limit fired is not comparable: counted by the caller, never a verdict)"""
     out = []
+    if _timed_out(a) or _timed_out(b):
+        return out
     for k in sorted(set(a) | set(b)):
         if k == "inputs" or k.startswith("_"):
             continue
@@ -544,14 +569,19 @@ def run(ctx):
     perms = [-1, -2] + [rng.randrange(1 << 30) for _ in range(1 if quick else 3)]
     primary = [dict(j, dump=True, repeat=True, perms=perms) for j in jobs]
     plain = [dict(j, dump=False, repeat=False, perms=[]) for j in jobs]
-    if quick:
-        joblists = [primary] + [plain] * (n_seeds - 1)
-    else:
-        # every job under 8 seeds; 24 more seeds on the half of the jobs with the widest lookahead sets
-        joblists = [primary] + [plain] * (n_seeds - 1)
-    results = run_all_seeds(seeds, joblists, par=4)
-    st = {"jobs": len(jobs), "seeds": seeds, "perm_orders": perms, "families": {}, "grammar_errors": 0,
-          "tables": 0, "states": 0, "tables_with_conflicts": 0, "max_lookahead_set": 0,
+    # quick: every job in all 4 processes.  thorough: every job in 8 processes, and the third of the
+    # jobs with the most terminals in 24 more
+    full = n_seeds if quick else 8
+    order = sorted(range(len(jobs)), key=lambda k: -len(set(gramgen.alphabet_of(jobs[k]["gtext"])) |
+                                                     set(jobs[k]["gtext"].split("'")[1::2])))
+    subset = sorted(order[:len(jobs) // 3])
+    index = [list(range(len(jobs)))] * full + [subset] * (n_seeds - full)
+    joblists = [primary] + [plain] * (full - 1) + [[plain[k] for k in subset]] * (n_seeds - full)
+    raw = run_all_seeds(seeds, joblists, par=4)
+    results = [dict(zip(index[i], raw[i])) for i in range(len(seeds))]
+    st = {"jobs": len(jobs), "jobs_in_every_process": len(jobs), "processes_for_every_job": full,
+          "jobs_in_the_additional_processes": len(subset) if n_seeds > full else 0, "seeds": seeds, "perm_orders": perms, "families": {}, "grammar_errors": 0,
+          "timeouts_not_compared": 0, "tables": 0, "states": 0, "tables_with_conflicts": 0, "max_lookahead_set": 0,
           "lookahead_ge4": 0, "inputs": 0, "forests": 0, "ambiguous_forests": 0, "syntax_errors": 0,
           "other_input_outcomes": {}, "lr_outcomes": {}, "cross_seed_differences": 0,
           "repeat_differences": 0, "perm_differences": 0, "model_cases": 0, "model_disagreements": 0,
@@ -567,9 +597,13 @@ def run(ctx):
         r0 = ref[ji]
         o0 = r0["obs"]
         st["families"][job["fam"]] = st["families"].get(job["fam"], 0) + 1
+        if any(_timed_out(results[si][ji]["obs"]) for si in range(len(seeds)) if ji in results[si]):
+            st["timeouts_not_compared"] += 1
         rep = {"grammar": job["gtext"], "opts": job["opts"], "inputs": job["inputs"], "name": job["name"]}
         # ---- property oracle 1: identical in every process
         for si in range(1, len(seeds)):
+            if ji not in results[si]:
+                continue
             o = results[si][ji]["obs"]
             evaluations += 1
             if o0.get("_conflict_text_raw") != o.get("_conflict_text_raw"):
